@@ -137,10 +137,11 @@ theorem acceptPrefix_step (s : Scan) (pre : List Char) :
   · exact ⟨rfl, by simp⟩
   · exact ⟨rfl, Nat.le_refl _⟩
 
-/-- `/* … */` loop (F15 repair): every iteration consumes a character or ends; end of input raises -/
-theorem blockComment_terminates : ∀ (n : Nat) (s : Scan), s.input.size - s.pos < n →
-    (∃ s', blockCommentLoop n s = .ok s' ∧ s'.input = s.input ∧ s.pos ≤ s'.pos) ∨
-    (∃ msg l c s', blockCommentLoop n s = .error (.scan msg l c, s')) := by
+/-- `/* … */` loop (F15 repair): every iteration consumes a character or ends; end of input raises the error
+    built when the comment was opened -/
+theorem blockComment_terminates (posErr : Err) : ∀ (n : Nat) (s : Scan), s.input.size - s.pos < n →
+    (∃ s', blockCommentLoop posErr n s = .ok s' ∧ s'.input = s.input ∧ s.pos ≤ s'.pos) ∨
+    (∃ s', blockCommentLoop posErr n s = .error (posErr, s')) := by
   intro n
   induction n with
   | zero => intro s h; omega
@@ -161,14 +162,14 @@ theorem blockComment_terminates : ∀ (n : Nat) (s : Scan), s.input.size - s.pos
           | none => exact absurd hx this
           | some c => simp
         rw [if_neg hnn]
-        rcases ih (s.next).1 (by rw [next_input, hp]; omega) with ⟨s', e1, e2, e3⟩ | ⟨msg, l, c, s', e⟩
+        rcases ih (s.next).1 (by rw [next_input, hp]; omega) with ⟨s', e1, e2, e3⟩ | ⟨s', e⟩
         · left; exact ⟨s', e1, by rw [e2, next_input], by omega⟩
-        · right; exact ⟨msg, l, c, s', e⟩
+        · right; exact ⟨s', e⟩
       · right
         obtain ⟨h1, h2⟩ := next_pos_ge s hlt
         have hnn : (((s.next).2 == none) = true) := by rw [h2]; rfl
         rw [if_pos hnn]
-        exact ⟨_, _, _, _, rfl⟩
+        exact ⟨_, rfl⟩
 
 /-- quoted-string loop: every iteration consumes at least one character; newline / end of input raise -/
 theorem quoted_terminates (posErr : Err) : ∀ (n : Nat) (s : Scan) (c : Option Char),
